@@ -1,17 +1,114 @@
 package libp2p
 
 import (
+	"context"
 	"encoding/json"
 	"fmt"
+	"io"
 	"math/rand"
 	"strings"
 	"testing"
+	"time"
+
+	"github.com/ethereum/go-ethereum/common"
+	"github.com/ethereum/go-ethereum/crypto"
+	mockkeysigner "github.com/primevprotocol/mev-commit/pkg/keysigner/mock"
+	"github.com/primevprotocol/mev-commit/pkg/p2p"
+	"github.com/primevprotocol/mev-commit/pkg/util"
 )
 
 type c16In struct {
 	Incoming  []byte
 	Name      []byte
 	Supported []byte
+	// routing cases (two real services): Descs registered on one node, in one AddStreamHandlers call or one
+	// call each; Incoming is then the identifier "/name/version" a connected peer opens
+	Routing bool
+	Descs   [][2]string
+	OneCall bool
+}
+
+type c16Reg struct{}
+
+func (c16Reg) CheckProviderRegistered(context.Context, common.Address) bool { return true }
+
+func c16NewSvc(t *testing.T) *Service {
+	k, err := crypto.GenerateKey()
+	if err != nil {
+		t.Fatal(err)
+	}
+	svc, err := New(&Options{
+		KeySigner:  mockkeysigner.NewMockKeySigner(k, crypto.PubkeyToAddress(k.PublicKey)),
+		Secret:     "test",
+		ListenPort: 0,
+		ListenAddr: "127.0.0.1",
+		PeerType:   p2p.PeerTypeBidder,
+		Register:   c16Reg{},
+		Logger:     util.NewTestLogger(io.Discard),
+	})
+	if err != nil {
+		t.Fatal(err)
+	}
+	return svc
+}
+
+// c16Route registers descs on a fresh node and lets a connected peer open every identifier of opens;
+// returns per identifier: 0 = stream could not be opened / no handler invoked, k = k-th handler, 99 = several
+func c16Route(t *testing.T, descs [][2]string, oneCall bool, opens [][2]string) []int {
+	server, client := c16NewSvc(t), c16NewSvc(t)
+	defer server.Close()
+	defer client.Close()
+	invoked := make(chan int, 64)
+	var sd []p2p.StreamDesc
+	for i, d := range descs {
+		k := i + 1
+		sd = append(sd, p2p.StreamDesc{Name: d[0], Version: d[1], Handler: func(ctx context.Context, _ p2p.Peer, _ p2p.Stream) error {
+			invoked <- k
+			return nil
+		}})
+	}
+	if oneCall {
+		server.AddStreamHandlers(sd...)
+	} else {
+		for _, d := range sd {
+			server.AddStreamHandlers(d)
+		}
+	}
+	info := server.host.Peerstore().PeerInfo(server.host.ID())
+	addr, err := info.MarshalJSON()
+	if err != nil {
+		t.Fatal(err)
+	}
+	ctx, cancel := context.WithTimeout(context.Background(), 60*time.Second)
+	defer cancel()
+	peer, err := client.Connect(ctx, addr)
+	if err != nil {
+		t.Fatalf("c16 routing: connect: %v", err)
+	}
+	res := make([]int, len(opens))
+	for i, o := range opens {
+		octx, ocancel := context.WithTimeout(ctx, 10*time.Second)
+		str, err := client.NewStream(octx, peer, nil, p2p.StreamDesc{Name: o[0], Version: o[1]})
+		ocancel()
+		if err != nil {
+			res[i] = 0
+			continue
+		}
+		got := 0
+		select {
+		case got = <-invoked:
+		case <-time.After(5 * time.Second):
+		}
+		_ = str.Close()
+		// a second invocation for the same stream would be a routing defect too
+		select {
+		case <-invoked:
+			got = 99
+		case <-time.After(20 * time.Millisecond):
+		}
+		res[i] = got
+	}
+	return res
 }
 
 func c16Run(in c16In) (obs int) {
@@ -57,18 +154,50 @@ func c16Malformed(r *rand.Rand) c16In {
 	if r.Intn(3) == 0 {
 		sup = pick()
 	}
-	return c16In{[]byte(inc), []byte(names[r.Intn(len(names))]), []byte(sup)}
+	return c16In{Incoming: []byte(inc), Name: []byte(names[r.Intn(len(names))]), Supported: []byte(sup)}
 }
 
 func TestVerifC16(t *testing.T) {
 	e := vfOpen(t, 1)
 	defer e.Close()
+	coqDescs := func(ds [][2]string) string {
+		var items []string
+		for _, d := range ds {
+			items = append(items, coqPair(coqStr(d[0]), coqStr(d[1])))
+		}
+		return coqList(items)
+	}
 	run := func(class string, in c16In) {
+		if in.Routing {
+			parts := strings.SplitN(strings.TrimPrefix(string(in.Incoming), "/"), "/", 2)
+			if len(parts) != 2 {
+				return
+			}
+			obs := c16Route(t, in.Descs, in.OneCall, [][2]string{{parts[0], parts[1]}})[0]
+			e.Emit(class, in, obs, func(id int) string {
+				return coqRecord("id", coqN(uint64(id)), "kind", "1%N", "descs", coqDescs(in.Descs), "incoming", coqBytes(in.Incoming),
+					"hname", coqBytes(nil), "supported", coqBytes(nil), "obs", coqN(uint64(obs)))
+			})
+			return
+		}
 		obs := c16Run(in)
 		e.Emit(class, in, obs, func(id int) string {
-			return coqRecord("id", coqN(uint64(id)), "incoming", coqBytes(in.Incoming), "hname", coqBytes(in.Name),
+			return coqRecord("id", coqN(uint64(id)), "kind", "0%N", "descs", "[]", "incoming", coqBytes(in.Incoming), "hname", coqBytes(in.Name),
 				"supported", coqBytes(in.Supported), "obs", coqN(uint64(obs)))
 		})
+	}
+	// routing through two real services: several descriptors registered in ONE AddStreamHandlers call and in
+	// separate calls; every identifier is opened by a connected peer and must reach exactly the handler the rule names
+	routing := func(descs [][2]string, oneCall bool, opens [][2]string) {
+		res := c16Route(t, descs, oneCall, opens)
+		for i, o := range opens {
+			in := c16In{Incoming: []byte("/" + o[0] + "/" + o[1]), Routing: true, Descs: descs, OneCall: oneCall}
+			obs := res[i]
+			e.Emit("routing", in, obs, func(id int) string {
+				return coqRecord("id", coqN(uint64(id)), "kind", "1%N", "descs", coqDescs(descs), "incoming", coqBytes(in.Incoming),
+					"hname", coqBytes(nil), "supported", coqBytes(nil), "obs", coqN(uint64(obs)))
+			})
+		}
 	}
 	for _, raw := range e.Replay {
 		var in c16In
@@ -79,6 +208,18 @@ func TestVerifC16(t *testing.T) {
 	}
 	if e.OnlyReplay() {
 		return
+	}
+	{
+		descs := [][2]string{{"alpha", "1.2.0"}, {"beta", "2.0.5"}, {"gamma", "0.3.1"}}
+		opens := [][2]string{{"alpha", "1.2.0"}, {"beta", "2.0.5"}, {"gamma", "0.3.1"}, {"alpha", "1.0.7"}, {"alpha", "1.3.0"},
+			{"alpha", "2.0.0"}, {"beta", "2.0.0"}, {"beta", "1.0.0"}, {"gamma", "0.3.9"}, {"gamma", "0.4.0"}, {"delta", "1.0.0"}}
+		routing(descs, true, opens)
+		routing(descs, false, opens)
+		routing(descs[:1], true, opens[:6])
+		if e.Tier == "thorough" {
+			routing([][2]string{{"p", "1.0.0"}, {"q", "1.0.0"}, {"r", "1.0.0"}, {"s", "1.0.0"}}, true,
+				[][2]string{{"p", "1.0.0"}, {"q", "1.0.0"}, {"r", "1.0.0"}, {"s", "1.0.0"}, {"s", "1.1.0"}, {"t", "1.0.0"}})
+		}
 	}
 	// exhaustive small range: components in [0,K]^6, K by tier
 	K := 2
@@ -94,10 +235,7 @@ func TestVerifC16(t *testing.T) {
 					for HM := 0; HM <= K; HM++ {
 						for Hm := 0; Hm <= K; Hm++ {
 							for Hp := 0; Hp <= K; Hp++ {
-								run("exhaustive", c16In{
-									[]byte(fmt.Sprintf("/%s/%d.%d.%d", nm[0], M, m, p)),
-									[]byte(nm[1]),
-									[]byte(fmt.Sprintf("%d.%d.%d", HM, Hm, Hp))})
+								run("exhaustive", c16In{Incoming: []byte(fmt.Sprintf("/%s/%d.%d.%d", nm[0], M, m, p)), Name: []byte(nm[1]), Supported: []byte(fmt.Sprintf("%d.%d.%d", HM, Hm, Hp))})
 							}
 						}
 					}
@@ -110,8 +248,8 @@ func TestVerifC16(t *testing.T) {
 		"18446744073709551615", "18446744073709551616", "100000000000000000000", "007"}
 	for _, a := range bounds {
 		for _, b := range bounds {
-			run("boundary", c16In{[]byte("/preconf/" + a + "." + b + ".0"), []byte("preconf"), []byte(b + "." + a + ".0")})
-			run("boundary", c16In{[]byte("/preconf/" + a + "." + a + "." + b), []byte("preconf"), []byte(a + "." + b + ".1")})
+			run("boundary", c16In{Incoming: []byte("/preconf/" + a + "." + b + ".0"), Name: []byte("preconf"), Supported: []byte(b + "." + a + ".0")})
+			run("boundary", c16In{Incoming: []byte("/preconf/" + a + "." + a + "." + b), Name: []byte("preconf"), Supported: []byte(a + "." + b + ".1")})
 		}
 	}
 	// random numeric
@@ -136,8 +274,8 @@ func TestVerifC16(t *testing.T) {
 		if e.rng.Intn(2) == 0 {
 			Hm = c()
 		}
-		run("random-numeric", c16In{[]byte(fmt.Sprintf("/preconf/%d.%d.%d", M, m, c())), []byte("preconf"),
-			[]byte(fmt.Sprintf("%d.%d.%d", HM, Hm, c()))})
+		run("random-numeric", c16In{Incoming: []byte(fmt.Sprintf("/preconf/%d.%d.%d", M, m, c())), Name: []byte("preconf"),
+			Supported: []byte(fmt.Sprintf("%d.%d.%d", HM, Hm, c()))})
 	}
 	// malformed identifiers
 	for i := 0; i < e.N; i++ {
